@@ -54,6 +54,11 @@ def make(kind, ref, r, token=False, private=False, extra=None, flags=None, vlen=
               boolflag(K.CKA_ENCRYPT, "encrypt", True), boolflag(K.CKA_DECRYPT, "decrypt", True), boolflag(K.CKA_SIGN, "sign", True),
               boolflag(K.CKA_VERIFY, "verify", True), boolflag(K.CKA_WRAP, "wrap", True), boolflag(K.CKA_UNWRAP, "unwrap", True), boolflag(K.CKA_DERIVE, "derive", True)]
         info["klass"] = K.CKO_SECRET_KEY; info["ktype"] = kt; info["secret"][K.CKA_VALUE] = val
+        if fl.get("kcv") and kind in ("aes", "generic"):
+            # the application supplies the (correct) key check value itself instead of leaving it to the library
+            import decoder
+            cv = decoder.kcv(kind, val)
+            if cv: t.append(A_bytes(K.CKA_CHECK_VALUE, cv)); info["kcv"] = cv
     elif kind == "rsa_pub":
         k = POOL["rsa"][fl.get("pool", r.randrange(len(POOL["rsa"])))]
         t = base(ref, K.CKO_PUBLIC_KEY, token, private, r, suffix)
@@ -86,8 +91,16 @@ def make(kind, ref, r, token=False, private=False, extra=None, flags=None, vlen=
               boolflag(K.CKA_SENSITIVE, "sensitive", False), boolflag(K.CKA_EXTRACTABLE, "extractable", True),
               boolflag(K.CKA_SIGN, "sign", True), boolflag(K.CKA_DERIVE, "derive", True), boolflag(K.CKA_DECRYPT, "decrypt", False), boolflag(K.CKA_UNWRAP, "unwrap", False)]
         info["klass"] = K.CKO_PRIVATE_KEY; info["ktype"] = K.CKK_EC; info["secret"][K.CKA_VALUE] = bytes.fromhex(k["d"])
+    elif kind in ("dsa_params", "dh_params"):
+        # domain parameters objects (no key material): any odd "prime" will do for storage and access-control purposes
+        t = base(ref, K.CKO_DOMAIN_PARAMETERS, token, private, r, suffix)
+        prime = bytearray(rnd(r, 128)); prime[0] |= 0x80; prime[-1] |= 1
+        t += [A_ulong(K.CKA_KEY_TYPE, K.CKK_DSA if kind == "dsa_params" else K.CKK_DH), A_bytes(K.CKA_PRIME, bytes(prime)), A_bytes(K.CKA_BASE, rnd(r, 128))]
+        if kind == "dsa_params": t.append(A_bytes(K.CKA_SUBPRIME, rnd(r, 20)))
+        info["klass"] = K.CKO_DOMAIN_PARAMETERS; info["ktype"] = K.CKK_DSA if kind == "dsa_params" else K.CKK_DH
     else:
         raise ValueError(kind)
+    if fl.get("omit_private"): t = [e for e in t if e[0] != K.CKA_PRIVATE]
     if extra: t += extra
     return t, info
 
